@@ -415,6 +415,23 @@ func runInstance(l *Loaded, spec *Spec, in instance, stubs map[string]*ssa.Funct
 	}()
 	m := NewMachine(l.prog)
 	m.trace = trace
+	if os.Getenv("GOSX_WHERE") != "" {
+		stop := make(chan struct{})
+		defer close(stop)
+		go func() {
+			for {
+				select {
+				case <-stop:
+					return
+				case <-time.After(10 * time.Second):
+					func() {
+						defer func() { recover() }()
+						fmt.Fprintf(os.Stderr, "[where] %s: paths=%d steps=%d decisions=%d queries=%d :: %s\n", in, m.paths, m.steps, len(m.decisions), m.solver.Queries, m.where())
+					}()
+				}
+			}
+		}()
+	}
 	m.noIfConv = os.Getenv("GOSX_NOIFCONV") != ""
 	m.noLocal = os.Getenv("GOSX_NOLOCAL") != ""
 	m.params = in.params
